@@ -66,9 +66,9 @@ CLAIMED = {
         note="Trusted: TLC; hook events and overrides (feature verif-hooks); the harness's closed-form gradients for trace mode; tolerances 1e-7 (f64) / 2e-4..5e-4 (f32-level) with a 10-unit budget; exact finite ties are never generated.",
         ref="DESIGN.md 4.6, 5/C02", technique="TLC model check of HMC.tla on an exact dyadic lattice + bit-exact replay through HMC::step + trace validation on arbitrary targets (Trace_HMC)"),
     "C03": dict(
-        text="NutsTree.tla is Algorithm 6 as coded (NUTSChain::step + build_tree) as an explicit stack machine over an abstract leapfrog trajectory indexed by integer offsets, with an oracle for slice membership, divergence and U-turns and with the exact selection distribution of the candidate propagated through every merge; TLC proves, for every oracle pattern and random choice to tree depth 2 (3 thorough): next state is 0 or a slice-admissible visited point, never from a stopped subtree, contiguous extent <= 2^j, n = 1 + |slice|, n_alpha = leaves of the last doubling, uniform selection within a subtree (a wrong merge weight is the negative control). Real transitions (Gaussians dim 1..8 with random precision, library Gaussian, Rosenbrock, funnel, divergent, NaN-region targets, forced tiny/huge step sizes up to tree depth 10, f32/f64) are validated event by event: TLC replays the stack machine with the oracle answers bound to the logged fields and requires every logged counter, extent, candidate and state to equal the machine's; every leaf is re-integrated with the harness's own leapfrog.",
-        note="Trusted: TLC; hook events; identification of trajectory points by bit pattern; the harness's closed-form gradients; quantised uniforms (2^-16, margin 2), U-turn dead zone 1e-4, divergence-bound margin 1.0. No exhaustive replay into the implementation (it cannot be steered to a chosen slice pattern).",
-        ref="DESIGN.md 4.7, 5/C03", technique="TLC model check of NutsTree.tla over all oracle patterns + trace validation of real transitions against the same stack machine (Trace_NutsTree)"),
+        text="NutsTree.tla is Algorithm 6 as coded (NUTSChain::step + build_tree) as an explicit stack machine over an abstract leapfrog trajectory indexed by integer offsets, with an oracle for slice membership, divergence and U-turns and with the exact selection distribution of the candidate propagated through every merge; TLC proves, for every oracle pattern and random choice to tree depth 2 (3 thorough): next state is 0 or a slice-admissible visited point, never from a stopped subtree, contiguous extent <= 2^j, n = 1 + |slice|, n_alpha = leaves of the last doubling, uniform selection within a subtree (a wrong merge weight is the negative control). Real transitions (Gaussians dim 1..8 with random precision, library Gaussian, Rosenbrock, funnel, divergent, NaN-region targets, forced tiny/huge step sizes up to tree depth 10, f32/f64) are validated event by event: TLC replays the stack machine with the oracle answers bound to the logged fields and requires every logged counter, extent, candidate and state to equal the machine's; every leaf is re-integrated with the harness's own leapfrog. In the other direction Replay_NutsTree.tla fixes the oracle by a script that a real target realises (first coordinate = trajectory offset, exact dyadic momenta, slice class / divergence / U-turns chosen per offset), TLC runs NutsTree's own actions on every script to depth 1 (2) and sampled scripts to depth 3 (4), and the real build_tree (verif_api wrapper, scripted GradientTarget) must return the specification's n', s', n_alpha, alpha' and one of its candidates.",
+        note="Trusted: TLC; hook events; identification of trajectory points by bit pattern; the harness's closed-form gradients; quantised uniforms (2^-16, margin 2), U-turn dead zone 1e-4, divergence-bound margin 1.0. Whole transitions cannot be steered (the momentum is drawn inside step): they are validated impl -> spec only; build_tree is replayed spec -> impl, where which admissible candidate is drawn is not controlled (6 generator seeds per script).",
+        ref="DESIGN.md 4.7, 5/C03", technique="TLC model check of NutsTree.tla over all oracle patterns + replay of TLC-generated build_tree behaviours on scripted targets into the real build_tree (Replay_NutsTree) + trace validation of real transitions against the same stack machine (Trace_NutsTree)"),
     "C04": dict(
         text="MC_DualAvg.tla checks the phase machine over several run() calls (adapt exactly while m <= n_discard, then the step size equals the averaged iterate and never changes within the run, the counter persists); Trace_DualAvg validates every transition of real chains (warm-up 0..300/2000, requested acceptance 0.55..0.95, repeated run() calls, several targets, f32/f64): phase decided by the specification, counter, shrinkage point ln(10 eps), power-of-two start value, positivity/finiteness, coarse interval versions of the three dual-averaging recurrences from certified tables (gamma 0.05, t0 10, kappa 0.75) and fine residuals of the same recurrences; the start-up heuristic is called through its wrapper and must stop where Algorithm 4 stops.",
         note="Trusted: TLC, certified tables (bin/gen_tables.py, exact integer arithmetic), the harness's f64 re-evaluation for the fine residuals. The statistical clause (realised acceptance close to requested) is reported and asserted only as a wide envelope.",
